@@ -3,6 +3,9 @@ use std::collections::HashSet;
 use std::panic::{catch_unwind, AssertUnwindSafe};
 
 pub struct Cfg {
+    /// when set, the id of the case about to run is written to this file (to identify the case on which the
+    /// real crate aborts the process, e.g. a non-unwinding panic from an unsafe-precondition check)
+    pub trace: Option<std::cell::RefCell<std::fs::File>>,
     pub thorough: bool,
     pub seed: u64,
     pub only: Option<String>,
@@ -11,7 +14,7 @@ pub struct Cfg {
 
 impl Cfg {
     pub fn from_args(a: &[String]) -> Cfg {
-        let mut c = Cfg { thorough: false, seed: 0, only: None, first_failure: false };
+        let mut c = Cfg { trace: None, thorough: false, seed: 0, only: None, first_failure: false };
         let mut i = 0;
         while i < a.len() {
             match a[i].as_str() {
@@ -19,6 +22,7 @@ impl Cfg {
                 "--seed" => { c.seed = a[i + 1].parse().unwrap_or(0); i += 2; }
                 "--only" => { c.only = Some(a[i + 1].clone()); i += 2; }
                 "--first-failure" => { c.first_failure = true; i += 1; }
+                "--trace" => { c.trace = std::fs::File::create(&a[i + 1]).ok().map(std::cell::RefCell::new); i += 2; }
                 _ => { i += 1; }
             }
         }
@@ -46,7 +50,17 @@ impl Report {
     /// should this case run at all (--only filter / early stop)?
     pub fn want(&self, cfg: &Cfg, case: &str) -> bool {
         if self.stop { return false; }
-        match &cfg.only { Some(o) => o == case, None => true }
+        let w = match &cfg.only { Some(o) => o == case, None => true };
+        if w {
+            if let Some(f) = &cfg.trace {
+                use std::io::{Seek, SeekFrom, Write};
+                let mut f = f.borrow_mut();
+                let _ = f.seek(SeekFrom::Start(0));
+                let _ = f.write_all(case.as_bytes());
+                let _ = f.set_len(case.len() as u64);
+            }
+        }
+        w
     }
     /// record one evaluated case; `nontrivial` by the enumeration's stated rule
     pub fn eval(&mut self, case: &str, nontrivial: bool) {
